@@ -58,6 +58,23 @@ example : classify ⟨[], []⟩ "h".toList ⟨"1\t1\t2.5".toList ++ '#' :: '!' :
 theorem c09_fields_roundtrip (fs : List Text) (h : fs ≠ []) (hs : ∀ f ∈ fs, '\t' ∉ f) :
     splitOn '\t' (joinWith '\t' fs) = fs := splitOn_joinWith '\t' fs h hs
 
+/-- bridge lemma (text level), `parse (render rec) = rec`: a line rendered from tab-free fields
+(invocation, iteration, value, unit, criterion, the run's columns, run id) whose numerals read
+back as `inv`, `it`, `idx` classifies as exactly that measurement -/
+theorem c09_rendered_line_parses (invT itT val unit crit : Text) (mid : List Text) (idxT : Text)
+    (inv it idx : Nat)
+    (hnotab : ∀ f ∈ [invT, itT, val, unit, crit] ++ mid ++ [idxT], '\t' ∉ f)
+    (h1 : pyNat? invT = some inv) (h2 : pyNat? itT = some it) (h3 : pyFloatOk val = true)
+    (h4 : pyNat? idxT = some idx) :
+    classifyData (splitOn '\t' (joinWith '\t' ([invT, itT, val, unit, crit] ++ mid ++ [idxT])))
+      = .meas ⟨inv, it, val, crit, crit == totalName, idx⟩ := by
+  rw [splitOn_joinWith '\t' _ (by simp) hnotab]
+  unfold classifyData lastAfter5
+  simp [h1, h2, h3, h4]
+
+example : classify ⟨[], []⟩ "h".toList ⟨"2\t1\t100017.000000\tms\ttotal\tB\tE\tS\t\t1\t\t\t\t\t0".toList, true⟩
+    = .meas ⟨2, 1, "100017.000000".toList, totalName, true, 0⟩ := by decide
+
 /-! ## The repaired loader -/
 
 /-- `load_total`: whatever state the loader is in (whatever the file held, including torn
